@@ -411,6 +411,11 @@ func c20Random(s Src, tier string) *Case {
 	}
 	var pool []c20Line
 	for i := 0; i < n; i++ {
+		if Chance(s, "genline", 1, 4) {
+			// a line straight from the grammar (no prediction needed: the oracle is the fresh session)
+			pool = append(pool, c20Line{fmt.Sprintf("gen%d", i), "gen", randomLine(s)})
+			continue
+		}
 		pool = append(pool, c20Pool[s.Int("line", 0, len(c20Pool)-1)])
 	}
 	var ls []string
